@@ -139,6 +139,8 @@ def object_protocol_rule(ctx, rule: str, clauses):
             "copy": (undeclared, lambda v: v["addprops"] and v["typed"] and not captured(v), "undeclared keys of a TypedDict are copied when additional properties are allowed"),
         }
         for kind in clauses:
+            if kind not in expected:
+                continue
             dom, want, text = expected[kind]
             construct = f"{cls.name}:{kind}"
             if not sites[kind]:
@@ -192,6 +194,53 @@ def object_protocol_rule(ctx, rule: str, clauses):
             for h, halves in per_handler.items():
                 ctx.check(halves == {"messages", "children"}, rule, f"{cls.name}:aggregate:halves@{norm(parents[h].body[-1])[:40]}", h.body[0],
                           f"the handler keeps only {sorted(halves)} of the aggregate field's error (messages and children are both part of it)", m, h, detail="messages + children")
+        if "attribution" in clauses and has_addprops:
+            # which keys of the datum feed each aggregate field
+            def arg_comp(call):
+                a = call.args[0] if call.args else None
+                v = bind.get(a.id) if isinstance(a, ast.Name) else a
+                return v if isinstance(v, ast.DictComp) else None
+            rem_def = bind.get("remain")
+            ctx.check(rem_def is not None and isinstance(rem_def, ast.BinOp) and isinstance(rem_def.op, ast.Sub) and norm(rem_def.right) == "self.all_aliases" and derived_from(rem_def.left, "data", bind),
+                      rule, f"{cls.name}:attribution:remain", fn.body[0], "`remain` is not the keys of data minus the declared aliases", m, fn, detail="data.keys() - self.all_aliases")
+            for c in ast.walk(fn):
+                if not (isinstance(c, ast.Call) and isinstance(c.func, ast.Attribute) and c.func.attr == "deserialize"):
+                    continue
+                recv = norm(c.func.value)
+                kind = {"flattened_field.method": "flattened", "pattern_field.method": "pattern", "self.additional_field.method": "additional"}.get(recv)
+                if kind is None:
+                    continue
+                dc = arg_comp(c)
+                construct = f"{cls.name}:attribution:{kind}"
+                if dc is None:
+                    ctx.fail(rule, construct, c, f"the datum given to the {kind} field is not a dict comprehension over the keys of data: attribution cannot be decided", m.module.relpath, c.lineno)
+                    continue
+                g = dc.generators[0]
+                k = norm(g.target)
+                ok_val = norm(dc.key) == k and norm(dc.value) == f"data[{k}]"
+                conds = [norm(x) for x in g.ifs]
+                if kind == "flattened":
+                    # every alias of the flattened object present in the datum, whoever else uses that key
+                    ok = norm(g.iter) == "flattened_field.aliases" and conds == [f"{k} in data"]
+                    why = "a flattened field receives each of its aliases present in data (a key may also belong to the enclosing object or another flattened field)"
+                elif kind == "pattern":
+                    ok = norm(g.iter) == "remain" and f"isinstance({k}, str)" in " ".join(conds) and f"pattern_field.pattern.match({k})" in " ".join(conds)
+                    why = "a pattern field receives the not-yet-attributed string keys matching its pattern"
+                else:
+                    ok = norm(g.iter) == "remain" and not conds
+                    why = "the additional-properties field receives every key left"
+                ctx.check(ok and ok_val, rule, construct, dc, f"`{short(dc, 80)}`: {why}", m, dc, detail=why)
+                if kind in ("flattened", "pattern"):
+                    # the attributed keys leave `remain` before the next field / the unexpected-key scan
+                    st = c
+                    while st is not None and not isinstance(st, ast.Try):
+                        st = parents.get(st)
+                    blk = parents.get(st)
+                    body = getattr(blk, "body", []) if blk is not None else []
+                    before = body[: body.index(st)] if st in body else []
+                    var = c.args[0].id if c.args and isinstance(c.args[0], ast.Name) else "?"
+                    ok2 = any(norm(x) == f"remain.difference_update({var})" for x in before)
+                    ctx.check(ok2, rule, f"{construct}:consumed", c, f"the keys given to the {kind} field are not removed from `remain`: they would also be reported as unexpected / given to the additional field", m, c, detail=f"remain.difference_update({var})")
         # iteration source of the undeclared-key loops
         for kind in ("unexpected", "copy"):
             if kind not in clauses:
